@@ -34,6 +34,11 @@ impl AnnounceMessage {
         if buffer.len() < 30 {
             return Err(Error::BufferTooShort);
         }
+        // A profile specific or reserved time source whose value is the code of
+        // another variant cannot be represented on the wire.
+        if TimeSource::from_primitive(self.time_source.to_primitive()) != self.time_source {
+            return Err(Error::Invalid);
+        }
 
         self.origin_timestamp.serialize(&mut buffer[0..10])?;
         buffer[10..12].copy_from_slice(&self.current_utc_offset.to_be_bytes());
